@@ -625,3 +625,317 @@ func (c *Ctx) depthCountsEveryElement() {
 	c.check(bad == "" && good != "", "W11", fname(f)+"/every-element-counts", c.iposOr(at), "the depth is counted on the output of "+good,
 		"the depth is counted on what "+shortCallee(bad)+" returns: a function that cleans its output up (trims each element, drops those left empty) does not count a directory whose name is made of white space (` `, `\\t` — legal on disk and in archives), so an archive whose directories are so named is extracted deeper than the depth limit and the extraction reports success; in recursive mode the under-counted depth is also what the nested extraction starts from")
 }
+
+// ---- C02 / X9 --------------------------------------------------------------
+// "An entry that would resolve outside the destination makes the call fail with the 'suspected malicious intent' kind" —
+// every entry, of every kind. In the entry loop of unzip no path leads from the reading of an entry (zipReader.File[i])
+// to the next round without the entry's name having gone through sanitiseZipExtractPath: an entry left out before the
+// check (a symbolic link 'not recreated', a kind 'not supported') is an entry whose escaping name is never refused.
+func (c *Ctx) everyEntryIsSanitised() {
+	c.rule("X9", "in the entry loop of unzip every path from the reading of an entry to the next round goes through sanitiseZipExtractPath: no entry is left out before its name has been checked", 1)
+	f := c.fnOpt("filesystem", "(*VFS).unzip")
+	if f == nil {
+		return
+	}
+	c.FuncsSeen[fname(f)] = true
+	n := 0
+	allInstrs(f, func(i ssa.Instruction) {
+		ia, ok := i.(*ssa.IndexAddr)
+		if !ok || !inLoop(ia) {
+			return
+		}
+		// the slice indexed is the File field of the zip reader
+		isFiles := false
+		for _, s := range sources(ia.X, deriveOpts{through: func(string) bool { return false }}) {
+			if ld, ok := s.(*ssa.UnOp); ok && ld.Op == token.MUL {
+				if fa, ok := ld.X.(*ssa.FieldAddr); ok {
+					if pt, ok := fa.X.Type().Underlying().(*types.Pointer); ok {
+						if st, ok := pt.Elem().Underlying().(*types.Struct); ok && st.Field(fa.Field).Name() == "File" && strings.Contains(pt.Elem().String(), "archive/zip") {
+							isFiles = true
+						}
+					}
+				}
+			}
+		}
+		if !isFiles {
+			return
+		}
+		n++
+		esc := pathPruned(f, ia, func(j ssa.Instruction) bool { return callNamed(j, "filesystem.sanitiseZipExtractPath") },
+			func(j ssa.Instruction) bool { return j == ssa.Instruction(ia) }, nil)
+		key := fname(f) + "/every-entry-sanitised"
+		if n > 1 {
+			key += "#" + itoa(int64(n))
+		}
+		c.check(esc == nil, "X9", key, c.ipos(ia), "every round of the loop goes through sanitiseZipExtractPath",
+			"the next entry can be reached from the reading of this one without sanitiseZipExtractPath having seen its name: the entries that take that path (those of a kind the loop now leaves out — symbolic links, say) are never checked, so an archive that holds such an entry named `../evil` or `a/../../evil` is extracted with a nil error instead of being refused with the 'suspected malicious intent' kind; the same in nested archives")
+	})
+}
+
+// ---- C04 / N22 (= C06 / Z32 = C16 / Y22) -------------------------------------
+// "When the call reports success … the tree is really gone": removal, CleanDir and IsEmpty answer 'nothing there' for a
+// path that does not exist — as IsPathNotExist says. What IsPathNotExist takes for 'does not exist' is the absence of the
+// path (os.IsNotExist, ErrPathNotExist): an error that says the path could not be examined (a name too long, a
+// permission, a loop of links) says nothing of the kind.
+func (c *Ctx) notExistMeansAbsent(rule string) {
+	c.rule(rule, "IsPathNotExist classifies as 'does not exist' only what says the path is absent (os.IsNotExist, ErrPathNotExist, fs.ErrNotExist, ENOENT): an error that says the path could not be examined is not one of them", 1)
+	f := c.fnOpt("filesystem", "IsPathNotExist")
+	if f == nil {
+		return
+	}
+	c.FuncsSeen[fname(f)] = true
+	n := 0
+	allInstrs(f, func(i ssa.Instruction) {
+		cl, ok := i.(*ssa.Call)
+		if !ok {
+			return
+		}
+		cn := calleeFull(&cl.Call)
+		var kinds []ssa.Value
+		switch {
+		case strings.HasSuffix(cn, "commonerrors.Any") || strings.HasSuffix(cn, "commonerrors.None"):
+			if len(cl.Call.Args) == 2 {
+				kinds = variadicElems(cl.Call.Args[1])
+			}
+		case cn == "errors.Is":
+			kinds = []ssa.Value{cl.Call.Args[1]}
+		default:
+			return
+		}
+		for _, k := range kinds {
+			n++
+			name := ""
+			v := k
+			if mi, ok := v.(*ssa.MakeInterface); ok {
+				v = mi.X
+			}
+			switch x := v.(type) {
+			case *ssa.UnOp:
+				if g, ok := x.X.(*ssa.Global); ok {
+					name = g.Pkg.Pkg.Path() + "." + g.Name()
+				}
+			case *ssa.Const:
+				name = types.TypeString(x.Type(), nil) + "(" + x.Value.ExactString() + ")"
+			}
+			okk := false
+			switch name {
+			case modPath + "/filesystem.ErrPathNotExist", "os.ErrNotExist", "io/fs.ErrNotExist", "syscall.Errno(2)", modPath + "/commonerrors.ErrNotFound":
+				okk = true
+			}
+			key := fname(f) + "/" + shortCallee(cn)
+			if n > 1 {
+				key += "#" + itoa(int64(n))
+			}
+			if name == "" {
+				name = "a value that is not one of the 'absent' errors"
+			}
+			c.check(okk, rule, key, c.ipos(cl), "only 'absent' errors are classified as not existing",
+				"IsPathNotExist now answers true for "+strings.TrimPrefix(name, modPath+"/")+": an error that says the path could not be examined is taken for the absence of the path — removal, CleanDir and IsEmpty, which answer 'nothing there, success' on that answer, skip an entry whose path is longer than the system allows (syscall.Errno(36), ENAMETOOLONG), every ancestor then returns nil for a directory 'some files of which may have been ignored', and Rm / CleanDir report success with the whole tree still there")
+		}
+	})
+	if n == 0 {
+		c.ok(rule, fname(f)+"/classification", c.pos(f.Pos()), "IsPathNotExist classifies with os.IsNotExist and the text of ErrPathNotExist only")
+	}
+}
+
+// ---- C09 / A25 -------------------------------------------------------------
+// "a bounded read returns … the whole source when it is shorter; limited file reads refuse larger files with 'too large'":
+// the size Stat reports bounds the buffer and refuses early a file that is known to be too large; it never decides that
+// there is nothing to read. A size of zero is what procfs/sysfs files, devices, pipes and files still being written
+// report — ReadFileContent compares the size with bounds, not with zero.
+func (c *Ctx) statSizeNeverMeansEmpty() {
+	c.rule("A25", "ReadFileContent compares the size Stat reports with bounds only (the limit, the buffer cap), never with zero: 'empty' is what the read finds, not what Stat says", 1)
+	f := c.fnOpt("filesystem", "(*VFS).ReadFileContent")
+	if f == nil {
+		return
+	}
+	c.FuncsSeen[fname(f)] = true
+	var sizes []ssa.Value
+	allInstrs(f, func(i ssa.Instruction) {
+		if cl, ok := i.(*ssa.Call); ok && cl.Call.IsInvoke() && cl.Call.Method.Name() == "Size" {
+			sizes = append(sizes, cl)
+		}
+	})
+	fromSize := func(v ssa.Value) bool {
+		for _, s := range sources(v, deriveOpts{through: func(string) bool { return false }}) {
+			for _, z := range sizes {
+				if s == z {
+					return true
+				}
+			}
+		}
+		return false
+	}
+	var bad ssa.Instruction
+	n := 0
+	allInstrs(f, func(i ssa.Instruction) {
+		b, ok := i.(*ssa.BinOp)
+		if !ok {
+			return
+		}
+		switch b.Op {
+		case token.EQL, token.NEQ, token.LEQ, token.LSS, token.GTR, token.GEQ:
+		default:
+			return
+		}
+		var other ssa.Value
+		switch {
+		case fromSize(b.X):
+			other = b.Y
+		case fromSize(b.Y):
+			other = b.X
+		default:
+			return
+		}
+		n++
+		if k, ok := other.(*ssa.Const); ok && k.Value != nil {
+			if v, ok := constant.Int64Val(constant.ToInt(k.Value)); ok && (v == 0 || v == 1) {
+				bad = b
+			}
+		}
+	})
+	c.check(bad == nil && len(sizes) > 0, "A25", fname(f)+"/size-compared-with-bounds-only", c.iposOr(bad), "the size Stat reports is compared with bounds only",
+		"the size Stat reports is compared with zero at "+iposOrEmpty(c, bad)+": a file that reports no size and yet delivers data when read (/proc/self/status, a device, a pipe, a file filled after the size was taken) is answered for without being read — 'empty' instead of its content when it is within the limit, 'empty' instead of 'too large' when it is not")
+}
+
+// ---- C08 / E17 (C08) ---------------------------------------------------------
+// "… and does process every entry none of whose path components contains a match": the loop of CleanDir goes to the
+// end of the listing unless a removal reports an error. It makes no error up itself: a 'sanity check' after the removal
+// (the entry still exists) takes for a failure the directory that legitimately survives because something beneath it is
+// excluded, and the entries listed after it are never processed.
+func (c *Ctx) cleanLoopStopsOnlyForARemovalError() {
+	c.rule("E17", "the loop of CleanDirWithContextAndExclusionPatterns creates no error of its own: it stops only for what a removal (or the context) reported", 1)
+	f := c.fnOpt("filesystem", "(*VFS).CleanDirWithContextAndExclusionPatterns")
+	if f == nil {
+		return
+	}
+	c.FuncsSeen[fname(f)] = true
+	var bad ssa.Instruction
+	badName := ""
+	allInstrs(f, func(i ssa.Instruction) {
+		cl, ok := i.(*ssa.Call)
+		if !ok || !inLoop(cl) {
+			return
+		}
+		if isFreshError(cl) {
+			bad = cl
+			badName = calleeFull(&cl.Call)
+		}
+	})
+	c.check(bad == nil, "E17", fname(f)+"/no-error-made-up-in-the-loop", c.iposOr(bad), "the loop only hands back what a removal reported",
+		"the loop of CleanDir creates an error itself at "+iposOrEmpty(c, bad)+" ("+shortCallee(badName)+"): an entry whose removal returned nil — a directory that survives because something beneath it is excluded is such an entry — now ends the loop, so the entries listed after it, which no pattern names, are left in place, and a spurious error is returned for valid patterns; the same at every enclosing level")
+}
+
+// ---- C06 / Z33 -------------------------------------------------------------
+// "the values returned … are those of a small reference model (ls), identically on the OS-backed and the in-memory
+// backend": the names SubDirectories returns come from a listing whose order does not depend on the backend — a sorted
+// one (afero.ReadDir sorts by name), or one that is sorted afterwards. Readdir(-1) gives directory order: hash order on
+// ext4, creation order reversed on tmpfs, sorted in memory.
+func (c *Ctx) subDirectoriesAreListedInOneOrder() {
+	c.rule("Z33", "SubDirectoriesWithContextAndExclusionPatterns lists with a sorted read (afero.ReadDir, os.ReadDir) or sorts what it returns: the order of the names does not depend on the backend", 1)
+	f := c.fnOpt("filesystem", "(*VFS).SubDirectoriesWithContextAndExclusionPatterns")
+	if f == nil {
+		return
+	}
+	c.FuncsSeen[fname(f)] = true
+	sorted := ""
+	var listing ssa.Instruction
+	allInstrs(f, func(i ssa.Instruction) {
+		cl, ok := i.(*ssa.Call)
+		if !ok {
+			return
+		}
+		n := calleeFull(&cl.Call)
+		switch {
+		case n == "github.com/spf13/afero.ReadDir" || n == "os.ReadDir" || n == "io/fs.ReadDir" || strings.HasSuffix(n, "afero.Afero).ReadDir"):
+			sorted = n
+			listing = cl
+		case strings.HasPrefix(n, "sort.") || strings.HasPrefix(n, "slices.Sort"):
+			sorted = n
+		case strings.HasSuffix(n, ").Lls") || strings.HasSuffix(n, ").Ls") || strings.HasSuffix(n, ").Readdir") || strings.HasSuffix(n, ").Readdirnames") || strings.HasSuffix(n, ").LsWithExclusionPatterns"):
+			if listing == nil {
+				listing = cl
+			}
+		}
+	})
+	c.check(sorted != "", "Z33", fname(f)+"/one-order-on-every-backend", c.iposOr(listing), "the names come from "+shortCallee(sorted),
+		"the names SubDirectories returns come from a listing in directory order (Readdir(-1)) and are not sorted afterwards: on the OS backend the list comes back in the order of the directory (hash order on ext4 and overlayfs, reverse creation order on tmpfs) while the in-memory backend returns it sorted — the same call on the same tree returns two different values on the two backends")
+}
+
+// ---- C07 / V21 (= C03 / W12) ---------------------------------------------------
+// "zipping it and unzipping the result reproduces the same … file contents (compressible and not) … with and without
+// limits": what extraction refuses as 'too large' is what exceeds a configured limit. Every 'too large' refusal of
+// unzipZippedFile is decided by a comparison with one of the limits' values — a threshold of its own (a compression
+// ratio 'that looks like a bomb') refuses trees that are within every limit for what one of their files contains.
+func (c *Ctx) tooLargeIsDecidedByTheLimits(rule string) {
+	c.rule(rule, "every 'too large' refusal of unzipZippedFile is decided by a comparison with a value of the configured limits (GetMaxFileSize, GetMaxTotalSize, GetMaxDepth, GetMaxFileCount): no threshold of the function's own refuses what the limits allow", 2)
+	f := c.fnOpt("filesystem", "(*VFS).unzipZippedFile")
+	if f == nil {
+		return
+	}
+	c.FuncsSeen[fname(f)] = true
+	n := 0
+	allInstrs(f, func(i ssa.Instruction) {
+		cl, ok := i.(*ssa.Call)
+		if !ok || !isFreshError(cl) {
+			return
+		}
+		tooLarge := false
+		for _, a := range cl.Call.Args {
+			for _, s := range sources(a, deriveOpts{through: func(string) bool { return false }}) {
+				if ld, ok := s.(*ssa.UnOp); ok {
+					if g, ok := ld.X.(*ssa.Global); ok && g.Name() == "ErrTooLarge" {
+						tooLarge = true
+					}
+				}
+			}
+		}
+		if !tooLarge {
+			return
+		}
+		n++
+		// the nearest branch this refusal depends on
+		decided := false
+		for b := cl.Block().Idom(); b != nil && !decided; b = b.Idom() {
+			ifi, ok := b.Instrs[len(b.Instrs)-1].(*ssa.If)
+			if !ok {
+				continue
+			}
+			usesLimit := false
+			var operands func(v ssa.Value, d int)
+			operands = func(v ssa.Value, d int) {
+				if d > 6 || v == nil {
+					return
+				}
+				if c2, ok := v.(*ssa.Call); ok {
+					if c2.Call.IsInvoke() && strings.HasPrefix(c2.Call.Method.Name(), "GetMax") {
+						usesLimit = true
+					}
+					return
+				}
+				if in, ok := v.(ssa.Instruction); ok {
+					for _, o := range in.Operands(nil) {
+						if *o != nil {
+							operands(*o, d+1)
+						}
+					}
+				}
+			}
+			operands(ifi.Cond, 0)
+			if usesLimit {
+				decided = true
+			}
+			if !isLimitsGetter(ifi.Cond, "Apply") {
+				if v, _ := boolTest(ifi); !isLimitsGetter(v, "Apply") {
+					break // only `if limits.Apply()` may lie between the refusal and the comparison that decides it
+				}
+			}
+		}
+		key := fname(f) + "/too-large"
+		if n > 1 {
+			key += "#" + itoa(int64(n))
+		}
+		c.check(decided, rule, key, c.ipos(cl), "the refusal is decided by a comparison with a configured limit",
+			"this 'too large' refusal is not decided by a comparison with a value of the configured limits but by a threshold of the function's own: a tree that is within every limit (file size, total size, count, depth) is refused for what one of its files contains — 3 MiB of 0xFF padding deflate beyond 100:1 — the extraction stops there with an empty file in its place, and the rest of the tree is missing")
+	})
+}
